@@ -3,7 +3,7 @@
 # then build the model, the proofs and the compiled model driver.
 set -e
 cd "$(dirname "$0")"
-export PYTHONPATH=/verif:${ODAK_REPO:-/repo} PYTHONDONTWRITEBYTECODE=1
+export PYTHONPATH="$(pwd)":${ODAK_REPO:-/repo} PYTHONDONTWRITEBYTECODE=1
 /venv/bin/python -m harness.translate.generate_all
 cd lean
 lake build OdakModel odakdrv
